@@ -207,10 +207,11 @@ inductive Shape where
   | etod (c : Shape)
   | deco (c : Shape)
   | tagger (new gone : TagSet) (c : Shape)
-  /-- the decorator object `c` (a `TestResultDecorator` / `Tagger`) with a plain instance attribute `failfast = b`,
-  assigned before (`late = false`) or after (`late = true`) the objects above it were built; nothing in the
-  decorator reads it, an `ExtendedToOriginalDecorator` directly above it does (`getattr`/`hasattr` on every use) -/
-  | ffbox (late b : Bool) (c : Shape)
+  /-- a recording result of an old flavour that has no `failfast` (2.6, Twisted) on which somebody assigned the plain
+  instance attribute `failfast = b`, before (`late = false`) or after (`late = true`) the objects above it were
+  built; the result itself does not act on it, the `ExtendedToOriginalDecorator` above it reads it
+  (`getattr` / `hasattr` on every use) -/
+  | fsink (late b : Bool) (f : Flavour)
   | tfr (c : Shape)
   | multi (cs : List Shape)
   | e2s (c : Shape)
@@ -245,8 +246,8 @@ def caps : Shape → Caps
   | .sink f => f.caps
   | .tt _ | .text _ | .tbt => { progress := false }
   | .etod _ => {}
-  | .deco _ | .tagger _ _ _ => { done := false, failfast := false }
-  | .ffbox _ _ _ => { done := false }
+  | .deco _ | .tagger _ _ _ => { done := false }     -- `failfast`: a property forwarding to the decorated result
+  | .fsink _ _ f => { f.caps with failfast := true }
   | .tfr _ => {}
   | .multi _ => { progress := false }
   | .e2s _ => { progress := false, done := false }
@@ -450,7 +451,7 @@ mutual
   | .etod c => EtodOwn × St c
   | .deco c => St c
   | .tagger _ _ c => St c
-  | .ffbox _ _ c => Bool × St c
+  | .fsink _ _ _ => Sink
   | .tfr c => TfrOwn × St c
   | .multi cs => TT × StL cs
   | .e2s c => E2S × St c
@@ -467,9 +468,9 @@ def failfastOf : (s : Shape) → St s → Bool
   | .text _, st => st.tt.failfast
   | .tbt, st => st.tt.failfast
   | .etod c, (own, inner) => if (caps c).failfast then failfastOf c inner else own.failfast
-  | .deco _, _ => false
-  | .tagger _ _ _, _ => false
-  | .ffbox _ _ _, (f, _) => f
+  | .deco c, st => failfastOf c st
+  | .tagger _ _ c, st => failfastOf c st
+  | .fsink _ _ _, st => st.failfast
   | .tfr _, (own, _) => own.tt.failfast
   | .multi cs, (_, inner) => (failfastL cs inner).headD false
   | .e2s _, (own, _) => own.failfast
@@ -487,7 +488,7 @@ def shouldStopOf : (s : Shape) → St s → Bool
   | .etod c, (own, inner) => if (caps c).shouldStop then shouldStopOf c inner else own.shouldStop
   | .deco c, st => shouldStopOf c st
   | .tagger _ _ c, st => shouldStopOf c st
-  | .ffbox _ _ c, (_, inner) => shouldStopOf c inner
+  | .fsink _ _ _, st => st.shouldStop
   | .tfr c, (_, inner) => shouldStopOf c inner
   | .multi cs, (_, inner) => (shouldStopL cs inner).any id
   | .e2s _, (own, _) => own.shouldStop
@@ -505,7 +506,7 @@ def wasSuccessfulOf : (s : Shape) → St s → Bool
   | .etod c, (_, inner) => wasSuccessfulOf c inner
   | .deco c, st => wasSuccessfulOf c st
   | .tagger _ _ c, st => wasSuccessfulOf c st
-  | .ffbox _ _ c, (_, inner) => wasSuccessfulOf c inner
+  | .fsink _ _ _, st => st.ok
   | .tfr c, (_, inner) => wasSuccessfulOf c inner
   | .multi cs, (_, inner) => (wasSuccessfulL cs inner).all id
   | .e2s _, (own, _) => own.errors.isEmpty
@@ -522,7 +523,7 @@ def currentTagsOf : (s : Shape) → St s → TagSet
   | .etod c, (own, inner) => if (caps c).currentTags then currentTagsOf c inner else own.tags.cur
   | .deco c, st => currentTagsOf c st
   | .tagger _ _ c, st => currentTagsOf c st
-  | .ffbox _ _ c, (_, inner) => currentTagsOf c inner
+  | .fsink _ _ _, st => st.tags.cur
   | .tfr _, (own, _) => own.tt.tags.cur
   | .multi _, (own, _) => own.tags.cur
   | .e2s _, (own, _) => own.tags.cur
@@ -715,18 +716,14 @@ def step : (s : Shape) → St s → Call → St s
   | .etod ch, (own, inner), c => etodStep ⟨caps ch, step ch, failfastOf ch⟩ own inner c
   | .deco ch, st, c =>
       match c with
-      | .done | .setFailfast _ => st
-      | c => step ch st c
+      | .done => st
+      | c => step ch st c        -- (an assignment of `failfast` goes to the decorated result)
   | .tagger n g ch, st, c =>
       match c with
-      | .done | .setFailfast _ => st
+      | .done => st
       | .startTest t => step ch (step ch st (.startTest t)) (.tags n g)
       | c => step ch st c
-  | .ffbox _ _ ch, (f, inner), c =>
-      -- an assignment (through the `ExtendedToOriginalDecorator` above) lands in the instance attribute
-      match c with
-      | .setFailfast b => (b, inner)
-      | c => (f, step ch inner c)
+  | .fsink _ _ f, st, c => sinkStep f st c     -- (an assignment through the adapter above lands in the attribute)
   | .tfr ch, (own, inner), c => tfrStep ⟨caps ch, step ch, failfastOf ch⟩ own inner c
   | .multi cs, (own, inner), c =>
       -- (`_keeping_failfast`: the base class's assignments to `failfast` during `startTestRun` are ignored)
@@ -749,7 +746,7 @@ def init : (s : Shape) → St s
   | .etod c => (({} : EtodOwn), init c)
   | .deco c => init c
   | .tagger _ _ c => init c
-  | .ffbox _ b c => (b, init c)
+  | .fsink _ b _ => ({ failfast := b } : Sink)
   | .tfr c => (({} : TfrOwn), init c)
   | .multi cs =>
       -- `_keeping_failfast(super().__init__)`: constructing the wrapper assigns nothing to the wrapped results
@@ -790,7 +787,7 @@ def leaves : (s : Shape) → St s → List LeafSt
   | .etod c, (_, inner) => leaves c inner
   | .deco c, st => leaves c st
   | .tagger _ _ c, st => leaves c st
-  | .ffbox _ _ c, (_, inner) => leaves c inner
+  | .fsink _ _ f, st => [.sink f st]
   | .tfr c, (_, inner) => leaves c inner
   | .multi cs, (_, inner) => leavesL cs inner
   | .e2s c, (_, inner) => leaves c inner
@@ -803,16 +800,15 @@ end
 mutual
 /-- a bare recording result of an old flavour only occurs directly under an `ExtendedToOriginalDecorator`;
 `MultiTestResult`, `ThreadsafeForwardingResult`, `StreamToExtendedDecorator` hold their targets through one;
-a `MultiTestResult` has at least one target; a `failfast` instance attribute sits on a `TestResultDecorator` /
-`Tagger` -/
+a `MultiTestResult` has at least one target; a `failfast` instance attribute is assigned only on a flavour that has
+none of its own -/
 def Shape.wf : Shape → Bool
   | .sink f => f == .ext
   | .tt _ | .text _ | .tbt => true
   | .etod (.sink _) => true
+  | .etod (.fsink _ _ f) => !f.caps.failfast
   | .etod c => c.wf
-  | .ffbox _ _ (.deco c) => c.wf
-  | .ffbox _ _ (.tagger _ _ c) => c.wf
-  | .ffbox _ _ _ => false
+  | .fsink _ _ _ => false
   | .deco c | .tagger _ _ c => c.wf
   | .tfr (.etod c) | .e2s (.etod c) => (Shape.etod c).wf
   | .tfr _ | .e2s _ => false
@@ -827,7 +823,7 @@ end
 mutual
 def Shape.noStream : Shape → Bool
   | .e2s _ => false
-  | .etod c | .deco c | .tagger _ _ c | .tfr c | .ffbox _ _ c => c.noStream
+  | .etod c | .deco c | .tagger _ _ c | .tfr c => c.noStream
   | .multi cs => Shape.noStreamL cs
   | _ => true
 def Shape.noStreamL : List Shape → Bool
@@ -838,7 +834,7 @@ end
 mutual
 def Shape.hasTfr : Shape → Bool
   | .tfr _ => true
-  | .etod c | .deco c | .tagger _ _ c | .e2s c | .ffbox _ _ c => c.hasTfr
+  | .etod c | .deco c | .tagger _ _ c | .e2s c => c.hasTfr
   | .multi cs => Shape.hasTfrL cs
   | _ => false
 def Shape.hasTfrL : List Shape → Bool
@@ -849,7 +845,7 @@ end
 mutual
 def Shape.hasTbt : Shape → Bool
   | .tbt => true
-  | .etod c | .deco c | .tagger _ _ c | .e2s c | .tfr c | .ffbox _ _ c => c.hasTbt
+  | .etod c | .deco c | .tagger _ _ c | .e2s c | .tfr c => c.hasTbt
   | .multi cs => Shape.hasTbtL cs
   | _ => false
 def Shape.hasTbtL : List Shape → Bool
